@@ -447,6 +447,13 @@ Theorem C02_select32single_sentinels : forall ws sidx i, words_ok ws -> IndexSel
 Proof. exact select32single_sentinels. Qed.
 Print Assumptions C02_select32single_sentinels.
 
+(** under the size hypothesis [64 * len(words) < 2^31] the result (position or sentinel) fits Go's int32, so the
+    unbounded-[Z] statements above are statements about the int32 result *)
+Theorem C02_select32single_fits_int32 : forall ws i, 64 * zlen ws < 2 ^ 31 ->
+  -1 <= spec_select32single ws i <= 64 * zlen ws /\ - 2 ^ 31 <= spec_select32single ws i < 2 ^ 31.
+Proof. exact spec_select32single_int32. Qed.
+Print Assumptions C02_select32single_fits_int32.
+
 (** its in-word search (three halvings, one table-index expression) finds the [k]-th 1-bit of ANY word *)
 Theorem C02_single_in_word : forall w (k : nat) v base, 0 <= w ->
   nth_error (ones (bits 64 w)) k = Some v -> single_in_word w (Z.of_nat k) base = Some (base + v).
